@@ -158,6 +158,10 @@ def check(ctx):
     for ty in MESSAGE_TYPES:
         check_struct(ctx, ty, STRUCTS[ty])
     ctx.floor("R-2", "message types", len(MESSAGE_TYPES), 8)
+    from rules import c13 as _c13
+    _c13.check_read_to_value(ctx.under("R-5", "parser-entry"), "R-5")      # the byte-level entry hands on exactly the parsed item
+    from rules import c15 as _c15
+    _c15.check_rejections_propagate(ctx.under("R-3", "rejections"), "R-3", set(), variants=None, what="any decoding error", floor=40)
 
     # R-5 wrappers and the protected bstr
     for w, target in sorted(WRAPPERS.items()):
